@@ -379,8 +379,10 @@ theorem copySlot_assoc_size (s : Seg) (i rf : Nat) : (s.copySlot i rf).slots.siz
   simp only []
   split
   · split
-    · rw [(child_same _ _ _).size]; simp
-    · rw [upd_size, (child_same _ _ _).size]; simp
+    · simp
+    · split
+      · rw [(child_same _ _ _).size]; simp
+      · rw [upd_size, (child_same _ _ _).size]; simp
   · simp
 
 theorem unmark_treeSame {s : Seg} {i : Nat} (hi : Real s i) : TS s (s.unmark i) := by
